@@ -220,6 +220,18 @@ PROPS = {
   'sim': ['simsock', 'fakecurl', 'simclock'],
   'essential_classes': ['single:response', 'single:all-failed', 'error-notice-seen', 'two-requests:cache-full-on-one-endpoint', 'config:extending', 'config:signing', 'config:with-out-of-range-value', 'endpoints:3'],
   'assumptions': ['simulated socket semantics as documented in sim/simnet.hpp'],
+ }, 'C11': {
+  'technique': 'stateful property testing (rapidcheck histories) with byte-equality invariants and a differential against fresh contexts',
+  'level_text': 'Histories of up to 40 operations (parse consistent / mutated / legacy reference-built signatures, clone, verify under any policy with matching / differing / absent document hash and levels incl. overflowing ones, serialize, extend through a reference extender, '
+                'add a root level, prepend a local aggregation chain, change log level and data-hash cache size, free) run on one shared context; after every step every live signature must serialize to its birth bytes, clones must serialize identically, and every verification must return the same '
+                '(status, result, error code) as the same verification on a fresh context with a freshly parsed copy. Each history is executed with the default data-hash cache (behavioural divergence shows) and with cache size 0 (ASan sees freed hashes).',
+  'level_note': 'Trusted: ref/sigmodel.cpp builder, the reference extender (stateless), ASan. The comparison oracle is the SDK itself on a fresh context (differential), by design of the property.',
+  'rule': 'rapidcheck choice strings -> a pool of <= 4 signatures and a sequence of operations; non-trivial = >= 2 verifications with different outcomes or a derive operation; distinct = distinct operation/outcome trace (first 400 characters).',
+  'quick': {'cases': 3200, 'max_size': 300, 'wall_s': 900},
+  'thorough': {'cases': 64000, 'max_size': 400, 'wall_s': 3000, 'fuzz': {'runs': 40000, 'max_len': 1500, 'jobs': 16}},
+  'sim': ['simsock', 'fakecurl', 'simclock'],
+  'essential_classes': ['pool:consistent', 'pool:inconsistent', 'pool:legacy', 'history:verifies-with-different-outcomes', 'history:with-derive-operation', 'derive:extended', 'derive:root-level', 'derive:prepended', 'both-cache-configurations'],
+  'assumptions': ['reference extender is stateless, so fresh-context verifications see the same server behaviour'],
  },
 }
 
